@@ -2,14 +2,19 @@ package c35
 
 import (
 	"bytes"
+	"compress/gzip"
+	"errors"
 	"fmt"
 	"io"
 	"math/rand"
 	"mime/multipart"
+	"net"
 	"os"
+	"runtime"
 	"strconv"
 	"strings"
 	"sync"
+	"sync/atomic"
 	"time"
 
 	"github.com/valyala/fasthttp"
@@ -29,10 +34,11 @@ const (
 	actFormFile
 	actRemoveReparse
 	actFormThenClose
+	actFormLimit
 	nActs
 )
 
-var actNames = []string{"none", "MultipartForm", "FormValue", "FormFile", "remove+reparse", "MultipartForm+close"}
+var actNames = []string{"none", "MultipartForm", "FormValue", "FormFile", "remove+reparse", "MultipartForm+close", "MultipartFormWithLimit"}
 
 type reqSpec struct {
 	Kind   string // upload | trunc | garbage | chunked | expect | cut | get | post
@@ -41,6 +47,11 @@ type reqSpec struct {
 	Verify bool // the form is complete and mime/multipart round-trips it: the handler compares what it parsed
 	Close  bool
 	segs   [][]byte
+
+	Limit      int  // argument of MultipartFormWithLimit (actFormLimit)
+	DecodedLen int  // body length after content decoding (what the limit applies to)
+	Epilogue   int  // bytes after the closing delimiter
+	Hijack     bool // the handler hijacks the connection after its action
 }
 
 type histSpec struct {
@@ -51,12 +62,23 @@ type histSpec struct {
 	Big       bool
 	Cut       bool // the client closes after sending a prefix of the last request
 	Reqs      []reqSpec
+
+	Mode         string // random | big | limit | hijack
+	Hijack       bool   // the last request hijacks the connection
+	KeepHijacked bool   // Server.KeepHijackedConns
 }
 
 func (h *histSpec) class() string {
 	var ks []string
 	for _, q := range h.Reqs {
-		ks = append(ks, q.Kind+":"+strconv.Itoa(q.Act))
+		k := q.Kind + ":" + strconv.Itoa(q.Act)
+		if q.Act == actFormLimit {
+			k += fmt.Sprintf("(len%+d,epi=%v)", min(max(q.Limit-q.DecodedLen, -3), 2), q.Epilogue > 0)
+		}
+		if q.Hijack {
+			k += fmt.Sprintf("+hijack(keep=%v)", h.KeepHijacked)
+		}
+		ks = append(ks, k)
 	}
 	return fmt.Sprintf("pre=%v/st=%v/rm=%v/lim=%d/big=%v/%s", h.PreParse, h.Stream, h.ReduceMem, h.MaxBody, h.Big, strings.Join(ks, ","))
 }
@@ -65,13 +87,19 @@ func (h *histSpec) describe() map[string]any {
 	var rs []map[string]any
 	for _, q := range h.Reqs {
 		m := map[string]any{"kind": q.Kind, "act": actNames[q.Act], "close": q.Close}
+		if q.Act == actFormLimit {
+			m["limit"], m["decoded_body_len"], m["epilogue"] = q.Limit, q.DecodedLen, q.Epilogue
+		}
+		if q.Hijack {
+			m["hijack"] = true
+		}
 		if q.Form != nil {
 			m["form"] = q.Form.describe()
 		}
 		rs = append(rs, m)
 	}
 	return map[string]any{"DisablePreParseMultipartForm": !h.PreParse, "StreamRequestBody": h.Stream, "ReduceMemoryUsage": h.ReduceMem,
-		"MaxRequestBodySize": h.MaxBody, "client_cut": h.Cut, "requests": rs}
+		"MaxRequestBodySize": h.MaxBody, "KeepHijackedConns": h.KeepHijacked, "client_cut": h.Cut, "mode": h.Mode, "requests": rs}
 }
 
 func chunked(rnd *rand.Rand, body []byte) []byte {
@@ -99,20 +127,51 @@ func refRoundTrips(fs *formSpec, body []byte) bool {
 	return matchesSpec(f, fs) == ""
 }
 
+func gzipBytes(b []byte) []byte {
+	var buf bytes.Buffer
+	zw := gzip.NewWriter(&buf)
+	zw.Write(b) //nolint:errcheck
+	zw.Close()
+	return buf.Bytes()
+}
+
+var limitDeltas = []int{-2, -1, 0, 1}
+
 // genHist builds one keep-alive history; cas goes into the file markers.
-func genHist(rnd *rand.Rand, cas int, big bool) *histSpec {
-	h := &histSpec{PreParse: rnd.Intn(2) == 0, Stream: rnd.Intn(2) == 0, ReduceMem: rnd.Intn(4) == 0, MaxBody: 64 << 20}
+// mode: "random", "big" (pre-parsed upload around 16 MiB), "limit" (MultipartFormWithLimit boundary
+// matrix, entry m) or "hijack" (upload whose handler hijacks the connection, matrix entry m).
+func genHist(rnd *rand.Rand, cas int, mode string, m int) *histSpec {
+	big := mode == "big"
+	h := &histSpec{Mode: mode, PreParse: rnd.Intn(2) == 0, Stream: rnd.Intn(2) == 0, ReduceMem: rnd.Intn(4) == 0, MaxBody: 64 << 20}
 	if rnd.Intn(12) == 0 {
 		h.MaxBody = 4096
 	}
+	h.KeepHijacked = rnd.Intn(2) == 0
 	nReq := 2 + rnd.Intn(4)
-	kinds := []string{"upload", "upload", "upload", "trunc", "garbage", "chunked", "expect", "get", "post"}
-	if big {
+	kinds := []string{"upload", "upload", "upload", "trunc", "garbage", "chunked", "expect", "gzip", "get", "post"}
+	hijackLast := mode == "random" && rnd.Intn(12) == 0
+	switch mode {
+	case "big":
 		// pre-parsed upload above/around 16 MiB: stream on/off x complete/truncated, each followed by a keep-alive request
 		h.Big, h.MaxBody, h.ReduceMem = true, 64<<20, false
 		h.Stream = cas&1 != 0
 		h.PreParse = true // (on-demand parsing never reaches the 16 MiB threshold: 8 KiB streamed, unlimited buffered)
 		nReq = 2
+	case "limit":
+		// streamed, parsed on demand with a limit at the body length -2/-1/0/+1; then a keep-alive request
+		h.Stream, h.MaxBody = true, 64<<20
+		h.PreParse = (m/32)%2 == 1 && m%4 >= 2 // (a gzip body is never pre-parsed)
+		h.ReduceMem = (m/64)%2 == 1
+		nReq = 2 + (m/128)%2
+	case "hijack":
+		h.KeepHijacked = m&1 != 0
+		h.ReduceMem = m&2 != 0
+		h.MaxBody = 64 << 20
+		if (m>>2)%2 == 0 {
+			h.Stream, h.PreParse = true, false // 8 KiB is enough for a temp file
+		}
+		nReq = 1 + (m>>3)%2
+		hijackLast = true
 	}
 	for k := 0; k < nReq; k++ {
 		q := reqSpec{Kind: kinds[rnd.Intn(len(kinds))], Act: rnd.Intn(nActs)}
@@ -120,11 +179,14 @@ func genHist(rnd *rand.Rand, cas int, big bool) *histSpec {
 			q.Act = actForm
 		}
 		last := k == nReq-1
-		if last && !big && rnd.Intn(5) == 0 {
+		if last && mode == "random" && !hijackLast && rnd.Intn(5) == 0 {
 			q.Kind = "cut"
 			h.Cut = true
 		}
-		if big {
+		delta, relToForm := limitDeltas[rnd.Intn(4)], rnd.Intn(2) == 0
+		epilogue := []int{0, 0, 30, 3000}[rnd.Intn(4)]
+		switch mode {
+		case "big":
 			if k == 0 {
 				q.Kind = "upload"
 				if cas&2 != 0 {
@@ -134,13 +196,45 @@ func genHist(rnd *rand.Rand, cas int, big bool) *histSpec {
 			} else {
 				q.Kind, q.Act = "get", actNone
 			}
+			epilogue = 0
+		case "limit":
+			if k == nReq-2 {
+				q.Kind = []string{"upload", "chunked", "gzip", "gzip-chunked"}[m%4]
+				q.Act = actFormLimit
+				epilogue = []int{0, 30}[(m/4)%2]
+				delta = limitDeltas[(m/8)%4]
+				relToForm = false
+			} else if k == nReq-1 {
+				q.Kind, q.Act = "get", actNone
+			} else {
+				q.Kind, q.Act = "upload", actForm
+			}
+		case "hijack":
+			if last {
+				q.Kind = []string{"upload", "chunked", "gzip"}[(m>>4)%3]
+				q.Act = []int{actForm, actFormFile, actFormLimit, actNone}[(m>>3)%4]
+				delta, relToForm = 1, false
+			}
 		}
-		if last && !h.Cut {
+		if last && hijackLast {
+			if q.Kind == "get" || q.Kind == "post" || q.Kind == "trunc" || q.Kind == "garbage" || q.Kind == "expect" {
+				q.Kind = "upload"
+			}
+			if q.Act == actFormThenClose {
+				q.Act = actForm
+			}
+			q.Hijack = true
+			h.Hijack = true
+		}
+		if last && !h.Cut && !q.Hijack {
 			q.Close = true
 		}
 		head := fmt.Sprintf("X-Idx: %d\r\nX-Act: %d\r\nHost: c35\r\n", k, q.Act)
 		if q.Close {
 			head += "Connection: close\r\n"
+		}
+		if q.Hijack {
+			head += "X-Hijack: 1\r\n"
 		}
 		switch q.Kind {
 		case "get":
@@ -150,7 +244,7 @@ func genHist(rnd *rand.Rand, cas int, big bool) *histSpec {
 			q.segs = [][]byte{[]byte(fmt.Sprintf("POST /post HTTP/1.1\r\n%sContent-Type: application/x-www-form-urlencoded\r\nContent-Length: %d\r\n\r\n%s", head, len(body), body))}
 		default:
 			minFirst := 0
-			if rnd.Intn(2) == 0 || q.Kind == "trunc" || q.Kind == "cut" {
+			if rnd.Intn(2) == 0 || q.Kind == "trunc" || q.Kind == "cut" || q.Act == actFormLimit || q.Hijack {
 				minFirst = 8200 // spills in the on-demand streamed mode (ReadForm(8 KiB))
 			}
 			bigSize := 0
@@ -179,10 +273,41 @@ func genHist(rnd *rand.Rand, cas int, big bool) *histSpec {
 				rnd.Read(body)
 			default:
 				q.Verify = q.Kind != "cut" && (big || refRoundTrips(&fs, full))
+				if epilogue > 0 && !big {
+					// bytes after the closing delimiter (RFC 2046 epilogue): ignored by parsers, but part of the body length
+					q.Epilogue = epilogue
+					body = append(append(make([]byte, 0, len(full)+epilogue), full...), bytes.Repeat([]byte("epilogue line\r\n"), epilogue/15+1)[:epilogue]...)
+				}
+			}
+			q.DecodedLen = len(body)
+			if q.Act == actFormLimit {
+				base := len(body)
+				if relToForm {
+					base = len(full)
+				}
+				q.Limit = base + delta
+				switch rnd.Intn(10) {
+				case 0:
+					if mode == "random" {
+						q.Limit = len(body) / 2
+					}
+				case 1:
+					if mode == "random" {
+						q.Limit = 1 << 30
+					}
+				}
+				if q.Limit < 1 {
+					q.Limit = 1
+				}
+				head += fmt.Sprintf("X-Limit: %d\r\n", q.Limit)
 			}
 			head += "Content-Type: " + ct + "\r\n"
+			if strings.HasPrefix(q.Kind, "gzip") {
+				body = gzipBytes(body)
+				head += "Content-Encoding: gzip\r\n"
+			}
 			switch q.Kind {
-			case "chunked":
+			case "chunked", "gzip-chunked":
 				q.segs = [][]byte{[]byte("POST /up HTTP/1.1\r\n" + head + "Transfer-Encoding: chunked\r\n\r\n"), chunked(rnd, body)}
 			case "expect":
 				q.segs = [][]byte{[]byte(fmt.Sprintf("POST /up HTTP/1.1\r\n%sExpect: 100-continue\r\nContent-Length: %d\r\n\r\n", head, len(body))), body}
@@ -211,6 +336,22 @@ type histRun struct {
 	notes       []string
 	prevDone    chan struct{} // closed when the handler of the last-but-one request has returned
 	prevOnce    sync.Once
+
+	hijackRequested bool
+	tooLargeReqs    map[int]bool // requests whose MultipartFormWithLimit returned ErrBodyTooLarge
+}
+
+// leakKey narrows a leak to the limit path when every leaked file belongs to a request whose
+// MultipartFormWithLimit call ended with ErrBodyTooLarge.
+func (hr *histRun) leakKey(def string, files []tmpInfo) string {
+	hr.mu.Lock()
+	defer hr.mu.Unlock()
+	for _, ti := range files {
+		if !hr.tooLargeReqs[ti.Req] {
+			return def
+		}
+	}
+	return "tempfile-left-after-limit-exceeded"
 }
 
 func (hr *histRun) payload() map[string]any {
@@ -260,9 +401,10 @@ func (hr *histRun) handler(ctx *fasthttp.RequestCtx) {
 			}
 		}
 		if len(stale) > 0 {
+			markReported(stale)
 			p := hr.payload()
 			p["stale"] = stale
-			r.Violation(hr.cas, "tempfile-alive-at-next-dispatch", fmt.Sprintf("handler of request #%d started while %d temp file(s) of earlier request(s) on the same connection still exist: %+v", idx, len(stale), stale), p)
+			r.Violation(hr.cas, hr.leakKey("tempfile-alive-at-next-dispatch", stale), fmt.Sprintf("handler of request #%d started while %d temp file(s) of earlier request(s) on the same connection still exist: %+v", idx, len(stale), stale), p)
 		}
 	}
 
@@ -298,6 +440,29 @@ func (hr *histRun) handler(ctx *fasthttp.RequestCtx) {
 		}
 		if act == actFormThenClose {
 			ctx.SetConnectionClose()
+		}
+	case actFormLimit:
+		limit, _ := strconv.Atoi(string(ctx.Request.Header.Peek("X-Limit")))
+		f, ferr := ctx.Request.MultipartFormWithLimit(limit)
+		switch {
+		case ferr == nil:
+			r.Event("limit_parse_ok", 1)
+			if q != nil && q.Form != nil && q.Verify {
+				verify("MultipartFormWithLimit", matchesSpec(f, q.Form))
+			}
+		case errors.Is(ferr, fasthttp.ErrBodyTooLarge):
+			r.Event("limit_parse_too_large", 1)
+			hr.mu.Lock()
+			hr.tooLargeReqs[idx] = true
+			hr.mu.Unlock()
+			if q != nil && limit == q.DecodedLen-1 && q.Epilogue == 0 && ctx.Request.IsBodyStream() {
+				r.Event("limit_exactly_one_byte_short_on_stream", 1) // the whole form was read (and spilled) before the limit tripped
+			}
+		default:
+			r.Event("limit_parse_other_error", 1)
+		}
+		if ferr != nil && q != nil && q.Verify && limit >= q.DecodedLen {
+			r.Violation(hr.cas, "limit-rejects-body-within-limit", fmt.Sprintf("request #%d (%s): MultipartFormWithLimit(%d) failed on a %d-byte body: %v", idx, q.Kind, limit, q.DecodedLen, ferr), hr.payload())
 		}
 	case actFormValue:
 		name := "a"
@@ -335,10 +500,9 @@ func (hr *histRun) handler(ctx *fasthttp.RequestCtx) {
 			}
 		}
 	}
-	if ctx.Request.IsBodyStream() && (ctx.Request.Header.ContentLength() >= 0 || act == actNone) {
-		// consume what the parser left (an unread streamed body is a different property: C02).
-		// A chunked requestStream does not stay at EOF (a Read after the terminating chunk parses
-		// the next bytes of the connection as a chunk size), so it is only drained when untouched.
+	if ctx.Request.IsBodyStream() {
+		// consume what the parser left (epilogue, bytes beyond a limit, a form that failed to parse):
+		// what happens to a connection with an unread streamed body is a different property (C02)
 		io.Copy(io.Discard, ctx.RequestBodyStream()) //nolint:errcheck
 	}
 
@@ -348,7 +512,7 @@ func (hr *histRun) handler(ctx *fasthttp.RequestCtx) {
 		hr.mu.Unlock()
 		r.Event("tempfiles_seen_in_handler", len(own))
 		switch {
-		case hr.spec.PreParse && q != nil && q.Kind != "chunked":
+		case hr.spec.PreParse && q != nil && q.Kind != "chunked" && !strings.HasPrefix(q.Kind, "gzip"):
 			r.Event("spill_preparsed", 1)
 		case hr.spec.Stream:
 			r.Event("spill_ondemand_stream", 1)
@@ -357,7 +521,18 @@ func (hr *histRun) handler(ctx *fasthttp.RequestCtx) {
 		}
 	}
 	ctx.SetBodyString("ok")
+	if q != nil && q.Hijack {
+		hr.mu.Lock()
+		hr.hijackRequested = true
+		hr.mu.Unlock()
+		ctx.Hijack(func(c net.Conn) {
+			// the marker tells the client that the hijack goroutine is running this handler
+			c.Write([]byte(hijackMarker)) //nolint:errcheck
+		})
+	}
 }
+
+const hijackMarker = "\n<<C35-hijacked>>\n"
 
 func (hr *histRun) own(idx int) []tmpInfo {
 	var out []tmpInfo
@@ -369,11 +544,15 @@ func (hr *histRun) own(idx int) []tmpInfo {
 	return out
 }
 
+var hijackSamples atomic.Int32
+
 func runHistories(r *mon.Run, tmp string) {
 	const caseBase = 1_000_000 // history case ids are disjoint from round-trip case ids (replay selects by id)
 	n := r.N(500, 10_000)
 	nBig := r.N(4, 80)
-	one := func(k int, big bool) {
+	nLimit := r.N(64, 1024) // MultipartFormWithLimit boundary matrix (32 combinations per round)
+	nHijack := r.N(48, 480) // hijack matrix (48 combinations per round)
+	one := func(k int, mode string, m int) {
 		cas := caseBase + k
 		if !r.Want(cas) {
 			return
@@ -383,13 +562,29 @@ func runHistories(r *mon.Run, tmp string) {
 				r.Violation(cas, "panic", fmt.Sprintf("history case %d panicked: %v", cas, p), map[string]any{"part": "history", "case": cas})
 			}
 		}()
-		historyCase(r, tmp, cas, big)
+		historyCase(r, tmp, cas, mode, m)
 	}
-	mon.Parallel(nBig, 4, func(k int) { one(k, true) })
-	mon.Parallel(n-nBig, 0, func(k int) { one(nBig+k, false) })
+	mon.Parallel(nBig, 4, func(k int) { one(k, "big", k) })
+	mon.Parallel(n-nBig, 0, func(k int) {
+		switch {
+		case k < nLimit:
+			one(nBig+k, "limit", k)
+		case k < nLimit+nHijack:
+			one(nBig+k, "hijack", k-nLimit)
+		default:
+			one(nBig+k, "random", 0)
+		}
+	})
 	if !r.Replaying() {
 		r.Require("histories_completed", n*9/10)
-		r.Require("close_scans", n*9/10)
+		r.Require("close_scans", n*7/10)
+		r.Require("limit_exactly_one_byte_short_on_stream", nLimit/16)
+		r.Require("limit_parse_too_large", nLimit/4)
+		r.Require("limit_parse_ok", nLimit/4)
+		r.Require("hijack_close_after_spill", nHijack/4)
+		for _, c := range []string{"keep=false_rmu=false", "keep=false_rmu=true", "keep=true_rmu=false", "keep=true_rmu=true"} {
+			r.Require("hijack_close_after_spill_"+c, 1)
+		}
 		r.Require("next_dispatch_scans", n/2)
 		r.Require("next_dispatch_after_spill", n/20)
 		r.Require("close_after_spill", n/20)
@@ -398,15 +593,36 @@ func runHistories(r *mon.Run, tmp string) {
 	}
 }
 
-func historyCase(r *mon.Run, tmp string, cas int, big bool) {
+// hijackMu serialises the histories that hijack: while it is held at most one
+// fasthttp.hijackConnHandler goroutine exists in the process, so its absence from a
+// goroutine dump means that THIS history's hijack goroutine has finished.
+var hijackMu sync.Mutex
+
+// hijackGoroutineAlive reports whether some goroutine is inside fasthttp.hijackConnHandler
+// (second result false: the dump did not fit, nothing can be said).
+func hijackGoroutineAlive() (alive, complete bool) {
+	buf := make([]byte, 8<<20)
+	n := runtime.Stack(buf, true)
+	if n >= len(buf) {
+		return true, false
+	}
+	return bytes.Contains(buf[:n], []byte("fasthttp.hijackConnHandler(")), true
+}
+
+func historyCase(r *mon.Run, tmp string, cas int, mode string, m int) {
 	rnd := r.Rand("hist", cas)
-	spec := genHist(rnd, cas, big)
-	hr := &histRun{r: r, tmp: tmp, cas: cas, spec: spec, spilledReqs: map[int]int{}, prevDone: make(chan struct{})}
+	spec := genHist(rnd, cas, mode, m)
+	if spec.Hijack {
+		hijackMu.Lock()
+		defer hijackMu.Unlock()
+	}
+	hr := &histRun{r: r, tmp: tmp, cas: cas, spec: spec, spilledReqs: map[int]int{}, tooLargeReqs: map[int]bool{}, prevDone: make(chan struct{})}
 	s := &fasthttp.Server{
 		Handler:                      hr.handler,
 		DisablePreParseMultipartForm: !spec.PreParse,
 		StreamRequestBody:            spec.Stream,
 		ReduceMemoryUsage:            spec.ReduceMem,
+		KeepHijackedConns:            spec.KeepHijacked,
 		MaxRequestBodySize:           spec.MaxBody,
 		Logger:                       nopLogger{},
 		NoDefaultServerHeader:        true,
@@ -421,6 +637,7 @@ func historyCase(r *mon.Run, tmp string, cas int, big bool) {
 		wd = time.Duration(v) * time.Second // debugging aid only
 	}
 	readerEOF := make(chan struct{})
+	hijacked := false
 	finished := mon.Watchdog(wd, func() {
 		var wg sync.WaitGroup
 		wg.Add(1)
@@ -447,7 +664,26 @@ func historyCase(r *mon.Run, tmp string, cas int, big bool) {
 				c.Close()
 			}
 		}()
-		io.Copy(io.Discard, c) //nolint:errcheck
+		// read to EOF; a hijacked connection announces itself with the marker
+		buf, tail := make([]byte, 32<<10), []byte(nil)
+		for {
+			n, err := c.Read(buf)
+			if n > 0 && spec.Hijack && !hijacked {
+				tail = append(tail, buf[:n]...)
+				if bytes.Contains(tail, []byte(hijackMarker)) {
+					hijacked = true
+					if spec.KeepHijacked {
+						// the server leaves a kept connection alone: the test closes it
+						c.Close()
+					}
+				} else if len(tail) > len(hijackMarker) {
+					tail = append(tail[:0], tail[len(tail)-len(hijackMarker):]...)
+				}
+			}
+			if err != nil {
+				break
+			}
+		}
 		close(readerEOF)
 		wg.Wait()
 		<-srvDone
@@ -459,19 +695,66 @@ func historyCase(r *mon.Run, tmp string, cas int, big bool) {
 	}
 	c.Close()
 
-	// ---- monitor point 2: the connection is closed (ServeConn has returned)
-	r.Event("close_scans", 1)
 	hr.mu.Lock()
 	spilled := len(hr.spilledReqs) > 0
 	started := len(hr.dispatched)
+	hijackRequested := hr.hijackRequested
+	lastSpilled := hr.spilledReqs[len(spec.Reqs)-1] > 0
 	hr.mu.Unlock()
+
+	if hijacked {
+		// ---- monitor point 3: the hijack handler has returned and the connection is closed (by the
+		// server, or by the test when KeepHijackedConns). The request's RequestCtx is released by the
+		// hijack goroutine, so wait (no deadline decides; the cap only makes the case inconclusive)
+		// until that goroutine is gone, then list the directory.
+		gone := false
+		for start := time.Now(); time.Since(start) < wd; time.Sleep(time.Millisecond) {
+			if alive, complete := hijackGoroutineAlive(); complete && !alive {
+				gone = true
+				break
+			}
+		}
+		if !gone {
+			r.Inconclusive(fmt.Sprintf("history case %d: the hijack goroutine did not finish within the watchdog: %v", cas, spec.class()))
+			return
+		}
+		r.Event("hijack_close_scans", 1)
+		if lastSpilled {
+			r.Event("hijack_close_after_spill", 1)
+			r.Event(fmt.Sprintf("hijack_close_after_spill_keep=%v_rmu=%v", spec.KeepHijacked, spec.ReduceMem), 1)
+		}
+		if left := mine(scanTmp(tmp), "h", cas); len(left) > 0 {
+			key := hr.leakKey("tempfile-left-after-hijack", left)
+			if spec.KeepHijacked && spec.ReduceMem {
+				key = "tempfile-left-after-kept-hijack-rmu"
+			}
+			markReported(left)
+			p := hr.payload()
+			p["left"] = left
+			r.Violation(cas, key, fmt.Sprintf("the hijack handler returned, the connection is closed and the hijack goroutine is gone (KeepHijackedConns=%v ReduceMemoryUsage=%v), but %d temp file(s) of the hijacking request still exist: %+v", spec.KeepHijacked, spec.ReduceMem, len(left), left), p)
+		}
+		r.Event("histories_completed", 1)
+		r.Event("handlers_started", started)
+		r.Case(spec.class(), spilled)
+		if lastSpilled && hijackSamples.Add(1) <= 1 {
+			r.Sample(hr.payload())
+		}
+		return
+	}
+	if hijackRequested {
+		r.Event("hijack_requested_but_not_performed", 1) // (connection closed by an earlier step, or the server skipped the hijack)
+	}
+
+	// ---- monitor point 2: the connection is closed (ServeConn has returned)
+	r.Event("close_scans", 1)
 	if spilled {
 		r.Event("close_after_spill", 1)
 	}
 	if left := mine(scanTmp(tmp), "h", cas); len(left) > 0 {
+		markReported(left)
 		p := hr.payload()
 		p["left"] = left
-		r.Violation(cas, "tempfile-alive-after-close", fmt.Sprintf("ServeConn returned but %d temp file(s) created by requests of this connection still exist: %+v", len(left), left), p)
+		r.Violation(cas, hr.leakKey("tempfile-alive-after-close", left), fmt.Sprintf("ServeConn returned but %d temp file(s) created by requests of this connection still exist: %+v", len(left), left), p)
 	}
 	r.Event("histories_completed", 1)
 	r.Event("handlers_started", started)
